@@ -42,12 +42,14 @@ WEncSet(fn, x) ==     \* the set of acceptable outputs (a singleton except for d
     [] fn = "write_empty_tagged_fields" -> {<<0>>}
     [] fn = "write_compact_array_length" -> {UVar(BAdd(ValBits(x), One))}
     [] fn = "write_uuid" -> {EncUuid(x)}
+    \* (items laid out by index arithmetic, not FlattenSeq: arrays of 70000 elements are in the table)
     [] fn = "compact_array_writer" ->     \* instantiated with write_int8
          {IF IsNull(x) THEN CompactArrayLen(-1)
-          ELSE CompactArrayLen(Len(x.seq)) \o FlattenSeq([i \in 1..Len(x.seq) |-> BE(ValBits(x.seq[i]), 1)])}
+          ELSE CompactArrayLen(Len(x.seq)) \o [j \in 1..Len(x.seq) |-> BE(ValBits(x.seq[j]), 1)[1]]}
     [] fn = "legacy_array_writer" ->      \* instantiated with write_int16
          {IF IsNull(x) THEN LegacyArrayLen(-1)
-          ELSE LegacyArrayLen(Len(x.seq)) \o FlattenSeq([i \in 1..Len(x.seq) |-> BE(ValBits(x.seq[i]), 2)])}
+          ELSE LegacyArrayLen(Len(x.seq))
+               \o [j \in 1..(2 * Len(x.seq)) |-> BE(ValBits(x.seq[(j + 1) \div 2]), 2)[((j - 1) % 2) + 1]]}
     [] fn = "write_tagged_field" ->       \* x = <<tag, compact string payload>>
          {LET p == CompactBlob(x.seq[2]) IN UVar(ValBits(x.seq[1])) \o UVarNat(Len(p)) \o p}
     [] fn = "write_timedelta_i32" -> {BE(q, 4) : q \in MsCandidates(x)}
